@@ -227,6 +227,18 @@ func cmdCheck(args []string) int {
 		}
 		all = append(all, ob)
 	}
+	for _, cf := range eng.cs.Confines {
+		if !hasProp(cf.Props, *prop) || (*only != "" && !strings.Contains(cf.Type, *only)) {
+			continue
+		}
+		all = append(all, eng.confineObligations(cf, *prop)...)
+	}
+	for _, gt := range eng.cs.GoTracked {
+		if !hasProp(gt.Props, *prop) || (*only != "" && !strings.Contains(gt.Type, *only)) {
+			continue
+		}
+		all = append(all, eng.goTrackedObligations(gt, *prop)...)
+	}
 	tGen := time.Since(t0).Seconds() - tLoad
 	if len(faults) > 0 {
 		for _, f := range faults {
